@@ -121,7 +121,8 @@ def showOpt (o : Option UInt64) : String :=
   le-gen-repeat <half>                                    → ok <nat>
   le-gen-validate <mode> <half> <rotation>                → ok <C> <ones> | err rejected
   le-gen-enc <hex src> <mode> <half> <rot> <pad>          → ok <hex> | err rejected
-  le-gen-dec <hex enc> <n> <mode> <half> <rot>            → ok <hex> | err rejected -/
+  le-gen-dec <hex enc> <n> <mode> <half> <rot>            → ok <hex> | err rejected
+  le-gen-meta <proto> <mode> <half> <rot> <payloadLen> <extractedLen> → ok true|false -/
 def step (toks : List String) : Option String :=
   match toks with
   | ["le-gen-pdep", x, m] =>
@@ -171,6 +172,11 @@ def step (toks : List String) : Option String :=
         | none => some "err rejected"
       else some "bad-op"
     | _, _, _, _, _ => some "bad-op"
+  | ["le-gen-meta", pr, mode, h, r, pl, el] =>
+    match pr.toInt?, mode.toInt?, h.toNat?, r.toInt?, pl.toInt?, el.toInt? with
+    | some pr, some mode, some h, some r, some pl, some el =>
+      if h < 2^32 then some s!"ok {validateLowEntropyDataAckMetadata pr mode (UInt32.ofNat h) r pl el}" else some "bad-op"
+    | _, _, _, _, _, _ => some "bad-op"
   | _ => none
 
 end Mieru.GenDriver.LE
